@@ -1,30 +1,43 @@
-(* C17 -- one client's failure never affects the others.  Statements only; proofs in Proofs/C17_*.v.
+(* C17 -- one client's failure never affects the others.  Statements only; proofs in Proofs/C17_proofs.v (finite
+   domain, complete enumeration by vm_compute lifted with forallb_forall) and Proofs/C17_general.v (every exception
+   group -- any number of leaves, any order, repetitions -- behaves like its canonical form, generic in the tables).
    The tables (tcp_suppress, tcp_disconnect_hook, tcp_init_stack, listener_connect, tls_wrap, udp_aexit, isinst ...)
    come from Gen/ParamsC17.v, regenerated from /repo's source on every run. *)
 From Coq Require Import List Bool ZArith.
-From EN Require Import Conc.ExcKinds Gen.ParamsC17 Conc.Isolation Proofs.C17_proofs.
+From EN Require Import Conc.ExcKinds Gen.ParamsC17 Conc.Isolation Proofs.C17_proofs Proofs.C17_general.
 Import ListNotations.
 
-(* For every Exception-derived kind (naked leaf or group in canonical form) at every hook position, with or without a
-   second Exception-derived fault raised by on_disconnection, on the plain and the TLS server: nothing leaves the
-   client task, so the task group shared with every other client is never cancelled. *)
-Theorem client_task_never_raises_tcp_canon :
+(* For every Exception-derived exception value (a naked leaf kind or an exception group over any list of leaf kinds)
+   raised at every hook position, with or without a second Exception-derived fault raised by on_disconnection, on the
+   plain and the TLS server: nothing leaves the client task (normal completion), so the task group shared with every
+   other client is never cancelled. *)
+Theorem client_task_never_raises :
   forall (tls : bool) (p : position) (e1 : exc) (e2 : option exc),
-    In e1 all_canon_excs -> In e2 (None :: map Some all_canon_excs) ->
     exc_is_exception e1 = true ->
     match e2 with None => true | Some e => exc_is_exception e end = true ->
     o_raises (tcp_client_task tls p e1 e2) = None.
-Proof. exact tcp_never_raises_canon. Qed.
-Print Assumptions client_task_never_raises_tcp_canon.
+Proof. exact tcp_never_raises_general. Qed.
+Print Assumptions client_task_never_raises.
 
 (* Set-up faults (accepted-socket factory failure, TLS handshake failure) of any Exception-derived kind: the
    connection task ends normally, the socket/stream is closed, no request-handler hook ran. *)
-Theorem setup_fault_contained_canon :
+Theorem setup_fault_contained :
   forall (st : setup_stage) (e : exc),
-    In e all_canon_excs -> exc_is_exception e = true ->
+    exc_is_exception e = true ->
     o_raises (setup_task st e) = None /\ o_closed (setup_task st e) = true /\ o_hooks (setup_task st e) = [].
-Proof. exact setup_never_raises_canon. Qed.
-Print Assumptions setup_fault_contained_canon.
+Proof. exact setup_contained_general. Qed.
+Print Assumptions setup_fault_contained.
+
+(* A fault raised by an exit callback of the per-client stack that was registered after the suppressor (the TLS close
+   handshake inside aclosing(), the linger callback, _on_disconnect) is filtered like a handler fault. *)
+Theorem exit_callback_fault_contained :
+  forall e : exc, exc_is_exception e = true ->
+    o_raises (tcp_exit_callback_fault true SAclosing e) = None /\
+    o_raises (tcp_exit_callback_fault false SLinger e) = None /\
+    o_raises (tcp_exit_callback_fault true SOnDisconnect e) = None /\
+    o_raises (tcp_exit_callback_fault false SOnDisconnect e) = None.
+Proof. exact exit_callback_contained_general. Qed.
+Print Assumptions exit_callback_fault_contained.
 
 (* The failing client's connection is closed on every path (even for kinds outside the property). *)
 Theorem failing_client_closed :
@@ -43,18 +56,21 @@ Print Assumptions disconnect_hook_iff_connected.
 
 (* UDP: nothing leaves the client task, the per-address state returns to None and the next datagram of that address
    starts a fresh handler. *)
-Theorem udp_fresh_handler_after_failure_canon :
+Theorem udp_fresh_handler_after_failure :
   forall (p : upos) (e : exc),
-    In e all_canon_excs -> exc_is_exception e = true ->
+    exc_is_exception e = true ->
     u_raises (udp_client_task p e) = None /\ u_state (udp_client_task p e) = CNone /\ u_fresh (udp_client_task p e) = true.
-Proof. exact udp_never_raises_canon. Qed.
-Print Assumptions udp_fresh_handler_after_failure_canon.
+Proof. exact udp_fresh_general. Qed.
+Print Assumptions udp_fresh_handler_after_failure.
 
-(* Non-vacuity: Exception-derived kinds exist in the domain; a BaseException-only kind does escape (so the hypothesis
-   matters and the model is able to express a crash). *)
+(* Non-vacuity: Exception-derived kinds exist; a BaseException-only kind does escape (so the hypothesis matters and
+   the model is able to express a crash); a non-canonical group is covered. *)
 Example exception_kinds_exist :
-  exc_is_exception (Group [KGeneric; KClientClosed]) = true /\ In (Group [KGeneric; KClientClosed]) all_canon_excs.
-Proof. exact exception_kinds_exist. Qed.
+  exc_is_exception (Group [KClientClosed; KGeneric; KClientClosed]) = true.
+Proof. reflexivity. Qed.
 Example fatal_kind_escapes :
   o_raises (tcp_client_task false PHandleAfter (Naked KFatal) None) = Some (Naked KFatal).
 Proof. exact fatal_escapes_tcp. Qed.
+Example fatal_group_escapes_udp :
+  u_raises (udp_client_task UAfter (Group [KGeneric; KFatal])) = Some (Group [KGeneric; KFatal]).
+Proof. exact fatal_group_escapes_udp. Qed.
